@@ -23,12 +23,9 @@ def doSet (s : St) (fmt : Option (List Char)) : St × String :=
 /-- `PPTable(records, fmt=f, fields=…, fields_types=…, fields_titles=…, header=…, footer=…)` -/
 def doCtor (s : St) (fmt : Option (List Char)) : St × String :=
   match s.tbl, fmt with
-  | some (t, a), some f =>
-    -- a table built without `fields` is rebuilt with the field names it was given (`col_N`, dummy)
-    let fields := match a.fields with
-      | some fs => some fs
-      | none => some (t.fmt.fields.map fun fl => (⟨fl.name, fl.ftype, .none, none⟩ : FieldSpec))
-    let a' : CtorArgs := { a with fields := fields, fmt := some f, limits := none, skip := none }
+  | some (_, a), some f =>
+    -- the literal call: the same `fields` argument as the table was built with (none for a field-less table)
+    let a' : CtorArgs := { a with fmt := some f, limits := none, skip := none }
     match mkTable a' with
     | .ok t' => ({ s with tbl := some (t', a') }, "ok")
     | .error e => (s, "err " ++ e.name)
@@ -109,6 +106,12 @@ def handle (s : St) (line : String) : St × String :=
     match s.tbl, s.sib with
     | some l, some b => ({ s with tbl := some b, sib := some l }, "ok")
     | _, _ => (s, noTable)
+  | ["setlim", x, y] =>   -- table.fmt.set_limits((x, y))
+    let lim (t : String) : Option (Option Int) := if t = "n" then some none else (parseInt t).map some
+    match s.tbl, lim x, lim y with
+    | some (t, a), some p, some q => ({ s with tbl := some (setLimits t p q, a) }, "ok")
+    | none, some _, some _ => (s, noTable)
+    | _, _, _ => (s, "bad-op")
   | "rmcols" :: names =>   -- table.remove_columns([...])
     match s.tbl, names.mapM parseCps with
     | some (t, a), some ns => ({ s with tbl := some (removeCols t ns, a) }, "ok")
